@@ -97,14 +97,20 @@ def depObsOf : DSt → List (Option Bytes) → List (Pred.C09.DepObs Pred.C09Av1
 /-! ### c09.av1packet -/
 
 /-- the index-based models with checked slice expressions (`pktUnmarshalX`, `readFramesC`: a failed
-    check is a panic); `pktUnmarshalX_eq`, `readFramesC_eq` prove them equal to the list models -/
-def pktCallsOf (reuse : Bool) : PktSt → Bytes → List (Option Bytes) → List Pred.C09Av1.PktCall
+    check is a panic); `pktUnmarshalX_eq`, `readFramesC_eq` prove them equal to the list models.
+    Each payload comes with a flag `always`: ReadFrames is called on the packet after a successful
+    Unmarshal, and — when `always` is set — also after Unmarshal REFUSED the payload.  The packet then
+    holds what Unmarshal had stored before it returned the error (`pktUnmarshal`: nothing for a nil or
+    one-byte payload; the new Z, Y, W, N for a Z∧N header or a body that does not parse) and the
+    OBUElements it had before the call (none on a fresh AV1Packet, the elements of its first
+    successful parse on a reused one): ReadFrames runs on those fields. -/
+def pktCallsOf (reuse : Bool) : PktSt → Bytes → List (Option Bytes × Bool) → List Pred.C09Av1.PktCall
   | _, _, [] => []
-  | st, buf, p :: ps =>
+  | st, buf, (p, always) :: ps =>
     let st0 := if reuse then st else {}
     let r := pktUnmarshalX st0 p
     let fr : Res (List Bytes) × Bytes :=
-      if r.1.isOk then
+      if r.1.isOk || (always && !r.1.isPanic) then
         match readFramesC buf r.2.z r.2.y (r.2.elems.getD []) with
         | some x => (.ok x.1, x.2)
         | none => (.panic, buf)
